@@ -6,10 +6,11 @@
 # On success stores it as /verif/seeded/<seed-id>/{patch.diff,demo.rs,meta.json}.
 set -u
 SRC="$1"; K="$2"; SID="$3"
-WT=/tmp/wt/confirm
-export CARGO_TARGET_DIR=/tmp/wt/confirm_target
+SLOT="${CONFIRM_SLOT:-}"   # optional: several confirmations in parallel, one scratch worktree per slot
+WT=/tmp/wt/confirm$SLOT
+export CARGO_TARGET_DIR=/tmp/wt/confirm_target$SLOT
 export CARGO_NET_OFFLINE=true
-exec 8>/tmp/wt/confirm.lock; flock 8
+exec 8>/tmp/wt/confirm$SLOT.lock; flock 8
 if [ ! -d "$WT" ]; then git -C /repo worktree add --detach "$WT" HEAD -q; fi
 git -C "$WT" checkout -q --detach "$(git -C /repo rev-parse HEAD)"; git -C "$WT" checkout -q -- .; git -C "$WT" clean -fdq
 [ -d "$CARGO_TARGET_DIR" ] || cp -r /repo/target "$CARGO_TARGET_DIR"
